@@ -820,11 +820,10 @@ class Engine:
         ex = h.clone()
         ex.guards = list(h.guards)
         ie = SInt.fresh(tname + '_exit')
-        ex.assume(ie >= a)
-        ex.assume(ie >= b)
-        ex.assume(Or(ie == a, ie - step < b))
+        exit_facts = And(ie >= a, ie >= b, Or(ie == a, ie - step < b))
         if step.v > 1:
-            ex.assume(((ie - a) % step.v) == 0)
+            exit_facts = And(exit_facts, ((ie - a) % step.v) == 0)
+        ex.assume_named(f'exit:loop{k}', exit_facts)
         self.assume_inv(fr, ex, spec, entry, {tname: ie})
         # loop variable after the loop: last value taken (if any iteration ran)
         if dom['kind'] == 'range' and isinstance(node.target, ast.Name):
